@@ -409,7 +409,7 @@ func (e *Exec) evalSel(ctx *evalCtx, x *ESel) Val {
 
 func (e *Exec) evalIndex(ctx *evalCtx, x *EIndex) Val {
 	b := e.eval(ctx, x.X, nil)
-	switch t := b.Typ.Underlying().(type) {
+	switch t := under(b.Typ).(type) {
 	case *types.Slice:
 		i := e.eval(ctx, x.I, types.Typ[types.Int])
 		return e.ctxLoad(ctx, e.elemLoc(b.T[0], app("bvadd", b.T[1], to64(i)), t.Elem()))
@@ -473,7 +473,7 @@ func (e *Exec) evalSlice(ctx *evalCtx, x *ESlice) Val {
 		}
 		return Val{T: []string{e.strSub(b.T[0], lo, hi)}, Typ: b.Typ}
 	}
-	if _, ok := b.Typ.Underlying().(*types.Slice); ok {
+	if _, ok := under(b.Typ).(*types.Slice); ok {
 		lo, hi := zero, b.T[2]
 		if x.Lo != nil {
 			lo = to64(e.eval(ctx, x.Lo, types.Typ[types.Int]))
@@ -531,7 +531,7 @@ func (e *Exec) evalBin(ctx *evalCtx, x *EBin, want types.Type) Val {
 			} else {
 				fail("comparison of different shapes: %s", exprString(x))
 			}
-		} else if _, isSlice := l.Typ.Underlying().(*types.Slice); isSlice && isNilExpr(x.R) {
+		} else if _, isSlice := under(l.Typ).(*types.Slice); isSlice && isNilExpr(x.R) {
 			eq = tEq(l.T[0], "0")
 		} else if len(l.T) == 2 && types.IsInterface(l.Typ) && (isNilExpr(x.R) || isNilExpr(x.L)) {
 			if isNilExpr(x.R) {
@@ -680,7 +680,7 @@ func (e *Exec) evalCall(ctx *evalCtx, x *ECall, want types.Type) Val {
 		return v
 	case "len":
 		v := arg(0, nil)
-		switch t := v.Typ.Underlying().(type) {
+		switch t := under(v.Typ).(type) {
 		case *types.Slice:
 			return Val{T: []string{v.T[2]}, Typ: types.Typ[types.Int]}
 		case *types.Basic:
@@ -801,7 +801,7 @@ func (e *Exec) evalCall(ctx *evalCtx, x *ECall, want types.Type) Val {
 		return e.unbox(ctx.st, v.T[1], t)
 	case "content":
 		v := arg(0, nil)
-		slt, ok := v.Typ.Underlying().(*types.Slice)
+		slt, ok := under(v.Typ).(*types.Slice)
 		if !ok {
 			fail("content() of non-slice")
 		}
